@@ -173,6 +173,7 @@ type reifier struct {
 	ptrs    map[string]string
 	err     error
 	nq      int
+	deadline time.Time // model queries stop after this instant (the violation is then reported without a replayed input)
 }
 
 type objInfo struct {
@@ -188,6 +189,10 @@ func (r *reifier) q(ts ...*Term) []*Term {
 		if !t.IsConst() && !t.IsTrue() && !t.IsFalse() {
 			need = append(need, t)
 		}
+	}
+	if !r.deadline.IsZero() && time.Now().After(r.deadline) {
+		r.fail("replay time budget exhausted while asking the solver for input values")
+		return nil
 	}
 	vals, ok := modelQuery(r.ob, r.pins, need, r.dir)
 	r.nq++
@@ -372,6 +377,9 @@ type ReplayOutcome struct {
 	Output     string   `json:"output,omitempty"`
 }
 
+// ReplayBudget bounds the time spent on turning one solver model into a concrete input.
+var ReplayBudget = 60 * time.Second
+
 func isSafetyKind(kind string) bool {
 	for _, p := range []string{"bounds@", "nil@", "div0@", "neg@", "unreachable@", "assert@"} {
 		if strings.HasPrefix(kind, p) {
@@ -394,7 +402,8 @@ func (e *Engine) Replay(ob *Obligation, repo string, scratch string) (out Replay
 		out.Reason = "generic function: replay harness not generated"
 		return
 	}
-	r := &reifier{e: e, ob: ob, dir: scratch, pkg: fn.Pkg.Pkg, imports: map[string]string{}, objs: map[string]*objInfo{}, ptrs: map[string]string{}}
+	r := &reifier{e: e, ob: ob, dir: scratch, pkg: fn.Pkg.Pkg, imports: map[string]string{}, objs: map[string]*objInfo{}, ptrs: map[string]string{},
+		deadline: time.Now().Add(ReplayBudget)}
 	var args []string
 	func() {
 		defer func() {
